@@ -447,6 +447,61 @@ class EndToEnd(EnumContract):
 REGISTRY.append(EndToEnd())
 
 
+class MarginProportionInvariance(EndToEnd):
+    """C03 / C05 for rows_margin_proportion / columns_margin_proportion: under any ordering,
+    hiding and pruning the output equals the untransformed one re-indexed by the display
+    orders, in the 1-D (marginal) and the 2-D (opposing array dimension) form"""
+
+    name = "e2e:rows/columns_margin_proportion under display transforms"
+    props = ("C03", "C05")
+    clauses = ("margin-proportion-1d-invariance", "margin-proportion-2d-invariance")
+
+    def cases(self, cfg, seed, thorough):
+        rnd = random.Random(5500 + seed)
+        n = 0
+        while n < (1500 if thorough else 200):
+            case = gen_case(rnd)
+            if case["transforms"] and len(case["dims"]) == 2:
+                n += 1
+                yield case
+
+    def check_case(self, case, cfg):
+        import numpy as np
+        import warnings
+
+        warnings.simplefilter("ignore")
+        dims, rs, weighted, tr = case["dims"], case["rs"], case["weighted"], case["transforms"]
+        rd, cd = dims
+        bad = set()
+        if not valid_elems(rd) or not valid_elems(cd):
+            return []
+        p0 = self._cube(dims, rs, weighted).partitions[0]
+        pt = self._cube(dims, rs, weighted, tr).partitions[0]
+        ro, co = [int(i) for i in pt.row_order()], [int(i) for i in pt.column_order()]
+        rsel = [k for k, o in enumerate(ro) if o >= 0]
+        csel = [k for k, o in enumerate(co) if o >= 0]
+        r_src = [ro[k] for k in rsel]
+        c_src = [co[k] for k in csel]
+        # margin proportions (1-D marginal, or 2-D across an array dimension): same rule
+        for name, axis in (("rows_margin_proportion", 0), ("columns_margin_proportion", 1)):
+            try:
+                a = np.asarray(getattr(pt, name), dtype=float)
+                b = np.asarray(getattr(p0, name), dtype=float)
+                if b.ndim == 2:
+                    ok = a.shape == (len(ro), len(co)) and close(a[np.ix_(rsel, csel)], b[np.ix_(r_src, c_src)], 1e-7)
+                else:
+                    sel, src = (rsel, r_src) if axis == 0 else (csel, c_src)
+                    ok = a.ndim == 1 and close(a[sel], b[src], 1e-7)
+                if not ok:
+                    bad.add("margin-proportion-%dd-invariance" % b.ndim)
+            except Exception:
+                bad.add("margin-proportion-%dd-invariance" % (2 if (cd if axis == 0 else rd)["kind"] == "MR" else 1))
+        return sorted(bad)
+
+
+REGISTRY.append(MarginProportionInvariance())
+
+
 # =======================================================================================
 # C14: scale statistics against respondent-level statistics
 
@@ -591,3 +646,240 @@ class ScaleStats(EnumContract):
 
 
 REGISTRY.append(ScaleStats())
+
+
+# =======================================================================================
+# strands: 1-D partitions against first principles (C01-C05, C09, C11, C15-less, C17) and the
+# categorical-array stack (C06)
+
+
+def gen_strand_case(rnd):
+    kind = rnd.choice(["CAT", "CAT", "CAT_DATE", "CAT_DATE", "MR", "CA"])
+    weighted = rnd.random() < 0.6
+    if kind == "CA":
+        n_items = rnd.choice([1, 2, 3])
+        cat_dim = gen_dim(rnd, "CAT", "a")
+        cat_dim.pop("doc_order", None)
+        dims = [dict(kind="CA", name="a", n=n_items, cats=cat_dim["cats"])]
+        rs = []
+        for _ in range(rnd.choice([0, 4, 9, 20])):
+            w = rnd.choice([0.0, 0.5, 1.0, 1.0, 1.5, 2.25]) if weighted else 1.0
+            rs.append(dict(a=[[rnd.randrange(len(cat_dim["cats"])) for _ in range(n_items)]], w=w))
+        d = cat_dim
+    else:
+        dims = [gen_dim(rnd, kind, "a")]
+        rs = gen_respondents(rnd, dims, rnd.choice([0, 3, 8, 15, 25]), weighted)
+        d = dims[0]
+    t = {}
+    if kind != "MR":
+        ids = [c["id"] for c in d["cats"]]
+        if rnd.random() < 0.7:
+            ins = []
+            for k in range(rnd.choice([1, 2, 3])):
+                pos = rnd.sample(ids, rnd.choice([1, min(2, len(ids))]))
+                anchor = rnd.choice(["top", "bottom"] + ids)
+                r = rnd.random()
+                if r < 0.45:
+                    one = {"function": "subtotal", "name": "s%d" % k, "anchor": anchor, "args": pos, "id": k + 1}
+                else:
+                    neg = rnd.sample(ids, rnd.choice([1, 1, min(2, len(ids))]))
+                    one = {"function": "subtotal", "name": "d%d" % k, "anchor": anchor,
+                           "kwargs": {"positive": pos if r < 0.9 else [], "negative": neg}, "id": k + 1}
+                ins.append(one)
+            t["insertions"] = ins
+        if rnd.random() < 0.3:
+            t["elements"] = {str(rnd.choice(ids)): {"hide": True}}
+        if rnd.random() < 0.3:
+            t["order"] = {"type": "explicit", "element_ids": rnd.sample(ids, len(ids))}
+    if rnd.random() < 0.4:
+        t["prune"] = True
+    return dict(dims=dims, rs=rs, weighted=weighted, transforms={"rows_dimension": t} if t else {})
+
+
+def _ca_json(d):
+    subs = [dict(alias="%s_%d" % (d["name"], i), name="item%d" % i) for i in range(d["n"])]
+    els = [
+        {"id": i + 1, "missing": False, "value": {"id": "%04d" % i, "derived": False, "references": subs[i]}}
+        for i in range(d["n"])
+    ]
+    refs = {"alias": d["name"], "name": d["name"].upper(), "subreferences": subs}
+    cats = [{"id": c["id"], "name": "%s%d" % (d["name"], c["id"]), "missing": c["missing"]} for c in d["cats"]]
+    return [
+        {"type": {"class": "enum", "elements": els, "subtype": {"class": "variable"}}, "references": refs},
+        {"type": {"class": "categorical", "categories": cats, "subvariables": ["%04d" % i for i in range(d["n"])]}, "references": refs},
+    ]
+
+
+def tabulate_ca(d, rs, weighted):
+    n, k = d["n"], len(d["cats"])
+    unw, wgt = [0.0] * (n * k), [0.0] * (n * k)
+    for r in rs:
+        for i in range(n):
+            unw[i * k + r["a"][0][i]] += 1
+            wgt[i * k + r["a"][0][i]] += r["w"]
+    nn = len(rs)
+    return {"result": {
+        "dimensions": _ca_json(d), "counts": [int(x) for x in unw],
+        "measures": {"count": {"data": wgt if weighted else [int(x) for x in unw], "n_missing": 0}},
+        "n": nn, "missing": 0,
+        "filtered": {"unweighted_n": nn, "weighted_n": sum(r["w"] for r in rs)},
+        "unfiltered": {"unweighted_n": nn, "weighted_n": sum(r["w"] for r in rs)},
+    }}
+
+
+class StrandEndToEnd(EnumContract):
+    name = "e2e:_Strand(response tabulated from respondents) vs first principles"
+    props = ("C01", "C02", "C03", "C04", "C05", "C06", "C09", "C11", "C17")
+    bound = ("1-D responses over CAT / CAT_DATE / MR dimensions and categorical arrays read as a stack of strands, <= 4 "
+             "categories (missing ones anywhere) or <= 3 items, <= 25 respondents with fractional weights, up to 3 random "
+             "subtotals / differences (multi-term, stale, overlapping), hide / prune / explicit order; seeded sample")
+    clauses = ("strand-counts", "strand-bases", "strand-proportions", "strand-stderr", "strand-population",
+               "strand-subtotals", "strand-visibility", "strand-labels", "strand-ranges", "strand-exception", "ca-stack")
+
+    def cases(self, cfg, seed, thorough):
+        rnd = random.Random(7000 + seed)
+        for _ in range(4000 if thorough else 500):
+            yield gen_strand_case(rnd)
+
+    def check_case(self, case, cfg):
+        import warnings
+        from cr.cube.cube import Cube
+
+        warnings.simplefilter("ignore")
+        dims, rs, weighted, tr = case["dims"], case["rs"], case["weighted"], case["transforms"]
+        d = dims[0]
+        bad = set()
+        if d["kind"] == "CA":
+            cube = Cube(tabulate_ca(d, rs, weighted), cube_idx=0, transforms=copy.deepcopy(tr) or None, population=1000)
+            parts = cube.partitions
+            if len(parts) != d["n"] or any(type(p).__name__ != "_Strand" for p in parts):
+                return ["ca-stack"]
+            cat = dict(kind="CAT", name=d["name"], cats=d["cats"])
+            for k, p in enumerate(parts):
+                sub = [dict(a=[r["a"][0][k]], w=r["w"]) for r in rs]
+                for b in self._check_strand(p, cat, sub, weighted, tr):
+                    bad.add(b)
+                # equal to the item's univariate analysis (C06)
+                q = Cube(tabulate([cat], sub, weighted), transforms=copy.deepcopy(tr) or None, population=1000).partitions[0]
+                for name in ("counts", "unweighted_counts", "table_proportions", "unweighted_bases", "weighted_bases",
+                             "table_proportion_stderrs", "row_labels"):
+                    try:
+                        a, b = getattr(p, name), getattr(q, name)
+                        same = list(a) == list(b) if name == "row_labels" else close(a, b)
+                        if not same:
+                            bad.add("ca-stack")
+                    except Exception:
+                        bad.add("ca-stack")
+            return sorted(bad)
+        cube = Cube(tabulate(dims, rs, weighted), transforms=copy.deepcopy(tr) or None, population=1000)
+        parts = cube.partitions
+        if len(parts) != 1 or type(parts[0]).__name__ != "_Strand":
+            return ["strand-exception"]
+        return sorted(self._check_strand(parts[0], d, rs, weighted, tr))
+
+    def _check_strand(self, p, d, rs, weighted, tr):
+        import numpy as np
+
+        bad = set()
+        t = tr.get("rows_dimension") or {}
+        V = valid_elems(d)
+        if not V:
+            return bad
+        is_mr = d["kind"] == "MR"
+        date = d["kind"] == "CAT_DATE"
+        W = [wsum(rs, lambda r, i=i: member(d, r["a"][0], i)) for i in V]
+        U = [wsum(rs, lambda r, i=i: member(d, r["a"][0], i), False) for i in V]
+        WB = [wsum(rs, lambda r, i=i: valid_on(d, r["a"][0], i)) for i in V]
+        UB = [wsum(rs, lambda r, i=i: valid_on(d, r["a"][0], i), False) for i in V]
+        # subtotals that survive: reference at least one valid id
+        ins = []
+        if not is_mr:
+            vids = [d["cats"][i]["id"] for i in V]
+            for one in t.get("insertions") or []:
+                pos = (one.get("kwargs") or {}).get("positive") or one.get("args", [])
+                neg = (one.get("kwargs") or {}).get("negative", [])
+                if set(pos + neg) & set(vids):
+                    ins.append(([vids.index(i) for i in vids if i in pos], [vids.index(i) for i in vids if i in neg]))
+        S = len(ins)
+        try:
+            order = [int(o) for o in p.row_order()]
+        except Exception:
+            return {"strand-exception"}
+        if len(set(order)) != len(order):
+            bad.add("strand-visibility")
+        # C09: a base row is absent iff hidden, or pruned with nobody eligible (unweighted);
+        # strand subtotals are never removed
+        hidden = set()
+        if not is_mr:
+            for k, v in (t.get("elements") or {}).items():
+                if v.get("hide"):
+                    hidden |= {n for n, i in enumerate(V) if d["cats"][i]["id"] == int(k)}
+        prune_base = UB if is_mr else U
+        exp_vis = {n for n in range(len(V)) if n not in hidden and not (t.get("prune") and prune_base[n] == 0)}
+        if {o for o in order if o >= 0} != exp_vis or {o for o in order if o < 0} != set(range(-S, 0)):
+            bad.add("strand-visibility")
+            return bad
+
+        def vec(base, sub):
+            return [base[o] if o >= 0 else sub[o + S] for o in order]
+
+        def sgn(vals, s):
+            return math.fsum(vals[i] for i in ins[s][0]) - math.fsum(vals[i] for i in ins[s][1])
+
+        def get(name):
+            return np.asarray(getattr(p, name), dtype=float)
+
+        try:
+            tbw, tbu = (None, None) if is_mr else (math.fsum(W), math.fsum(U))
+            if not (close(get("counts"), vec(W, [sgn(W, s) for s in range(S)]))
+                    and close(get("unweighted_counts"), vec(U, [sgn(U, s) for s in range(S)]))):
+                bad.add("strand-counts" if not S else "strand-subtotals")
+            if not (close(get("weighted_bases"), vec(WB, [tbw] * S)) and close(get("unweighted_bases"), vec(UB, [tbu] * S))):
+                bad.add("strand-bases")
+            P = [div(W[n], WB[n]) for n in range(len(V))]
+            PS, VS = [], []
+            for s in range(S):
+                a, b = ins[s]
+                multi = len(b) > 0 and (len(a) > 1 or len(b) > 1)
+                ps = float("nan") if (date and multi) else div(sgn(W, s), tbw)
+                PS.append(ps)
+                ex2 = div(math.fsum(W[i] for i in a) + math.fsum(W[i] for i in b), tbw)
+                VS.append(ex2 - ps * ps)
+            if not close(get("table_proportions"), vec(P, PS)) or not close(get("table_percentages"), [100 * x for x in vec(P, PS)]):
+                bad.add("strand-proportions" if not S else "strand-subtotals")
+            var = vec([x * (1 - x) for x in P], VS)
+            bases = vec(WB, [tbw] * S)
+            with np.errstate(all="ignore"):
+                se = np.sqrt(np.array(var, dtype=float) / np.array(bases, dtype=float))
+                sd = np.sqrt(np.array(var, dtype=float))
+            if not (close(get("table_proportion_stderrs"), se, 1e-7) and close(get("table_proportion_stddevs"), sd, 1e-7)
+                    and close(get("table_proportion_moes"), 1.959964 * se, 1e-7)):
+                bad.add("strand-stderr")
+            # C17: full population per wave on a date strand; NaN for differences
+            pp = vec([1.0] * len(V) if date else P, [float("nan") if ins[s][1] else (1.0 if date else PS[s]) for s in range(S)])
+            # filtered fraction of the tabulated response: filtered == unfiltered weighted N
+            # (1, or NaN when nobody responded: C17)
+            frac = 1.0 if math.fsum(r["w"] for r in rs) != 0 else float("nan")
+            if not close(get("population_counts"), [1000 * frac * x for x in pp]):
+                bad.add("strand-population")
+            pse = np.zeros(len(order)) if date else se
+            if not close(get("population_counts_moe"), 1.959964 * 1000 * frac * pse, 1e-7):
+                bad.add("strand-population")
+            if not (close(get("table_base_range"), [min(UB), max(UB)]) and close(get("table_margin_range"), [min(WB), max(WB)])):
+                bad.add("strand-ranges")
+            if tuple(p.shape) != (len(order),) or len(p.row_labels) != len(order):
+                bad.add("strand-labels")
+            if not is_mr:
+                names = ["%s%d" % (d["name"], d["cats"][i]["id"]) for i in V]
+                exp = [names[o] if o >= 0 else None for o in order]
+                got = list(p.row_labels)
+                if any(e is not None and e != g for e, g in zip(exp, got)):
+                    bad.add("strand-labels")
+            if sorted(p.inserted_row_idxs) != [k for k, o in enumerate(order) if o < 0]:
+                bad.add("strand-labels")
+        except Exception as e:
+            bad.add("strand-exception:%s" % type(e).__name__)
+        return bad
+
+
+REGISTRY.append(StrandEndToEnd())
